@@ -46,6 +46,7 @@ struct NvOpts
   NvOpts() : optimize(false), list(false), quiet(true), dump_symbols(false),
              dump_macros(false), file_type(-1), org(-1), pass1_only(false),
              raw_util_style(false), symdebug(false) {}
+  std::string srcfile;         // if set: source is read from this file with tokens_open_file() (needed for .include)
   bool optimize, list, quiet, dump_symbols, dump_macros;
   int file_type;               // FILE_TYPE_* to also run file_write(), -1 none
   std::string outfile;
